@@ -89,6 +89,8 @@ type OpSpec struct {
 	// response; EarlyAt > 0: the dialogue ends after that many events (completion pattern).
 	Marks   []string `json:"marks,omitempty"`
 	EarlyAt int      `json:"early_at,omitempty"`
+	// ReuseCb: a callbacks operation that uses the callback objects of the previous one again
+	ReuseCb bool `json:"reuse_callbacks,omitempty"`
 	// ResumeAfterUS > 0: a helper makes the device catch up this long after the op started.
 	ResumeAfterUS int64 `json:"resume_after_us,omitempty"`
 }
@@ -224,6 +226,8 @@ type SessionRun struct {
 	Out     kernel.Outcome
 	OpenRec OpRec
 	Other   *SessionRun // the second connection (OtherAfterOpen)
+	lastCbs []*generic.Callback
+	cbRec   *OpRec
 	Recs    []OpRec
 	Logs    *LogSink
 	G       *generic.Driver
@@ -652,6 +656,13 @@ func (sr *SessionRun) do(env *Env, op *OpSpec, o []util.Option, rec *OpRec) {
 		single(g.SendInteractive(events(), o...))
 	case "callbacks":
 		var cbs []*generic.Callback
+		sr.cbRec = rec
+		if op.ReuseCb && sr.lastCbs != nil {
+			// the caller keeps its callback objects and uses them again
+			single(g.SendWithCallbacks(op.Cmd, sr.lastCbs, sr.Sc.EffTimeout(op), o...))
+
+			break
+		}
 		for i := range op.Callbacks {
 			cs := op.Callbacks[i]
 			co := []util.Option{opoptions.WithCallbackName(cs.Name)}
@@ -678,7 +689,7 @@ func (sr *SessionRun) do(env *Env, op *OpSpec, o []util.Option, rec *OpRec) {
 			}
 			name, wr := cs.Name, cs.Write
 			cb, err := generic.NewCallback(func(d *generic.Driver, s string) error {
-				rec.CbFired = append(rec.CbFired, name+"|"+s)
+				sr.cbRec.CbFired = append(sr.cbRec.CbFired, name+"|"+s)
 				if wr != "" {
 					return d.Channel.WriteAndReturn([]byte(wr), false)
 				}
@@ -695,6 +706,7 @@ func (sr *SessionRun) do(env *Env, op *OpSpec, o []util.Option, rec *OpRec) {
 			}
 			cbs = append(cbs, cb)
 		}
+		sr.lastCbs = cbs
 		single(g.SendWithCallbacks(op.Cmd, cbs, sr.Sc.EffTimeout(op), o...))
 	case "acquire":
 		rec.Err = n.AcquirePriv(op.Target)
